@@ -1,8 +1,77 @@
-"""tpv autograd (placeholder, extended for C03/C09): ghost dependency tracking"""
-from .core import Unsupported
+"""tpv autograd: the assumed contract of torch.autograd.grad on lazy tensors (A4), built on tpv.jets"""
+import z3
+
+from . import core, jets
+from .core import STensor, Dim, Unsupported
+from .tlib import Tensor, lift
+
+
+def _IN():
+    from . import interp
+
+    return interp
+
+
+def leaves_of(I):
+    return I.ctx.ghost.setdefault("leaves", {})
+
+
+def register_leaf(I, t):
+    """called when requires_grad is switched on: elements must be atoms X(index...)"""
+    v = t.val
+    idx, _ = v.generic_index("lf")
+    e = v.at(idx)
+    if z3.is_app(e) and e.decl().kind() == z3.Z3_OP_UNINTERPRETED and e.num_args() > 0:
+        leaves_of(I)[e.decl().name()] = t
+        t.meta["leaf_decl"] = e.decl().name()
+    elif z3.is_app(e) and e.decl().kind() == z3.Z3_OP_UNINTERPRETED and e.num_args() == 0 and v.numel_concrete() == 1:
+        leaves_of(I)[e.decl().name()] = t
+        t.meta["leaf_decl"] = e.decl().name()
+
+
+def deps_of(I, t):
+    v = lift(t)
+    idx, _ = v.generic_index("dp")
+    return jets.occurs(v.at(idx), set(leaves_of(I)))
 
 
 def grad_fn_of(I, t):
-    if "deps" in t.meta and t.meta["deps"]:
-        return object()
-    return None
+    if t.meta.get("leaf_decl"):
+        return None
+    return object() if deps_of(I, t) else None
+
+
+def grad(I, outputs, inputs, grad_outputs=None, retain_graph=None, create_graph=False, allow_unused=False, **kw):
+    IN = _IN()
+    if grad_outputs is not None or kw.get("is_grads_batched"):
+        raise Unsupported("autograd.grad with grad_outputs / batched gradients")
+    outs = outputs if isinstance(outputs, (list, tuple)) else [outputs]
+    if len(outs) != 1:
+        raise Unsupported("autograd.grad with several outputs")
+    y = lift(outs[0])
+    if y.numel_concrete() != 1:
+        raise IN.RaisedEx("RuntimeError", "grad can be implicitly created only for scalar outputs", I.ctx.loc)
+    yt = core.zreal(y.at([tuple(0 for _ in d.factors) for d in y.shape]))
+    ins = inputs if isinstance(inputs, (list, tuple)) else [inputs]
+    leaves = set(leaves_of(I))
+    occ = jets.occurs(yt, leaves)
+    res = []
+    for x in ins:
+        if not isinstance(x, Tensor) or not x.requires_grad or not x.meta.get("leaf_decl"):
+            raise IN.RaisedEx("RuntimeError", "One of the differentiated Tensors does not require grad", I.ctx.loc)
+        name = x.meta["leaf_decl"]
+        if not occ:
+            raise IN.RaisedEx("RuntimeError", "element 0 of tensors does not require grad and does not have a grad_fn", I.ctx.loc)
+        if name not in occ:
+            if allow_unused:
+                res.append(None)
+                continue
+            raise IN.RaisedEx("RuntimeError", "One of the differentiated Tensors appears to not have been used in the graph. Set allow_unused=True if this is the desired behavior.", I.ctx.loc)
+        xv = x.val
+
+        def fn(idx, xv=xv):
+            atom = xv.at(idx)
+            return jets.diff(yt, atom, leaves)
+
+        res.append(Tensor(STensor(list(xv.shape), fn, "real", f"grad_{name}")))
+    return tuple(res)
